@@ -31,9 +31,25 @@ def gen_spec(rng: random.Random, small=False) -> dict:
         "stepmod": ({"every": rng.randint(1, 4), "mult": rng.randint(2, 4), "vary": rng.random() < 0.6}
                     if (dt and rng.random() < 0.4) else None),
         "obs": ({"strats": rng.randint(0, 3), "when": rng.choice(["collect_metrics", "time_step", "time_step__prepare", "time_step__cleanup"]),
-                 "concat": rng.random() < 0.5} if rng.random() < 0.7 else None),
+                 "concat": rng.random() < 0.5, "defaults": rng.choice([[], [], ["sex"], ["sex", "color"]])} if rng.random() < 0.7 else None),
         "order": [rng.randint(0, 4) for _ in range(rng.randint(0, 3))],
     }
+    if spec["obs"]:
+        spec["obs"]["defaults"] = spec["obs"]["defaults"][: spec["obs"]["strats"]]
+    return spec
+
+
+def prior_spec(seed: int) -> dict:
+    """an EARLIER simulation of the same process: a different rich program (observers with configured default
+    stratifications, CRN keys, births …) that is set up, stepped once and finalized before the program under test"""
+    rng = random.Random(f"prior:{seed}")
+    spec = gen_spec(rng, small=True)
+    spec["n_steps"] = 1
+    spec["pop"] = rng.choice([3, 8])
+    spec["stepmod"] = None
+    spec["obs"] = {"strats": rng.randint(1, 3), "when": "collect_metrics", "concat": rng.random() < 0.5, "defaults": ["sex"]}
+    if spec["obs"]["strats"] >= 2 and rng.random() < 0.5:
+        spec["obs"]["defaults"] = ["sex", "color"]
     return spec
 
 
